@@ -3,10 +3,12 @@
 EXTENDS PacketFifo, Json, IOUtils
 G == JsonDeserialize(IOEnv.GRAPH)
 NDuts == Len(G.duts)
-VARIABLES d, s
-vars == <<d, s, ep, hold, q, oprev, obs>>
+VARIABLES d, s,
+          ph   \* flips on a step that changes nothing else: no step of Next is a stuttering step, so WF_vars(Next)
+               \* cannot be satisfied by leaving a hung state that still has another way out (see Progress*)
+vars == <<d, s, ph, ep, hold, q, oprev, obs>>
 C == G.duts[d].cfg
-Init == /\ d \in 1..NDuts /\ s = 0 /\ CInit
+Init == /\ d \in 1..NDuts /\ s = 0 /\ ph = 0 /\ CInit
 Step(iv) ==
   /\ s >= 0
   /\ LET k == ToString(iv) IN
@@ -14,8 +16,9 @@ Step(iv) ==
        THEN LET e == G.duts[d].succ[s + 1][k] IN
             /\ s' = e.d /\ d' = d
             /\ CStep(C, iv, e.o)
+            /\ ph' = IF s' = s /\ cvars' = cvars THEN 1 - ph ELSE 0
        ELSE /\ PrintT(<<"NEED", d, s, iv>>)
-            /\ s' = -1 /\ d' = d /\ UNCHANGED cvars
+            /\ s' = -1 /\ d' = d /\ ph' = 0 /\ UNCHANGED cvars
 Next == \E iv \in Inputs(C) : Step(iv)
 Alias == [d |-> d, s |-> s, ep |-> ep, q |-> q, obs |-> obs, iv |-> CHOOSE iv \in Inputs(C) : Step(iv)]
 Spec == Init /\ [][Next]_vars /\ WF_vars(Next)
@@ -24,4 +27,7 @@ Progress     == (<>[](obs.coop)) => ([]<>(obs.srcfire))
 ProgressSink == (<>[](obs.coop)) => ([]<>(obs.sinkfire))
 (* nothing lost: with a consumer that is eventually always ready every complete packet is delivered *)
 NothingLost  == (<>[](obs.rdy)) => ([]<>(~obs.owed \/ obs.srcfire))
+(* the three progress clauses as ONE property (TLC names only a single violated temporal property reliably); *)
+(* the recorded replay is re-judged by the bounded forms, which name the clause                              *)
+Liveness == Progress /\ ProgressSink /\ NothingLost
 =============================================================================
